@@ -49,6 +49,7 @@ def _(self: Ref['mqtt.client.pubsubs.MQTTProtocol'], topic: Str, message: Any, q
     requires(any_state(self))
     requires(is_str(message) or is_bytes(message) or is_int(message) or is_none(message) or is_real(message) or is_bool(message))
     modifies(all_but(KEEP_API))
+    ensures(base_fixed())
     ensures(any_state(self))
     # refused where not allowed: failed with MQTTStateError, nothing written, nothing queued
     ensures(implies(not old(can_publish(self)), refused(result) and out(self) == old(out(self))
@@ -64,6 +65,7 @@ def _(self: Ref['mqtt.client.pubsubs.MQTTProtocol'], topics: Any, qos: int) -> R
     requires(any_state(self))
     requires(is_str(topics) or is_pair_si(topics) or is_list_si(topics) or is_int(topics) or is_none(topics))
     modifies(all_but(KEEP_API))
+    ensures(base_fixed())
     ensures(any_state(self))
     ensures(implies(not old(can_subscribe(self)), refused(result) and out(self) == old(out(self))
                     and forall(lambda k: contains(S(self), k) == old(contains(S(self), k)))))
@@ -76,6 +78,7 @@ def _(self: Ref['mqtt.client.pubsubs.MQTTProtocol'], topics: Any) -> Ref['Deferr
     requires(any_state(self))
     requires(is_str(topics) or is_list_str(topics) or is_int(topics) or is_none(topics) or is_pair_si(topics))
     modifies(all_but(KEEP_API))
+    ensures(base_fixed())
     ensures(any_state(self))
     ensures(implies(not old(can_subscribe(self)), refused(result) and out(self) == old(out(self))
                     and forall(lambda k: contains(U(self), k) == old(contains(U(self), k)))))
